@@ -156,6 +156,69 @@ fn part_a(acc: &mut Acc, tier: Tier) {
     });
 }
 
+// ------------------------------------------------------------------ (a2)
+
+/// "whatever input values it carries": values of query-bound members that themselves look like routing material - an escaped
+/// '&' (or '=' / '?' / '#') followed by each sub-resource flag or query member name of the model. The SDK-encoded request with
+/// the member present is taken and the value on the wire replaced by `a%26<flag>`, `a%26<flag>%3D1`, `a%3F<flag>`, `a%23<flag>`:
+/// still the same operation, still exactly one invocation.
+fn part_a2(acc: &mut Acc) -> usize {
+    let ds = driver::all();
+    let mut flags: BTreeSet<&'static str> = BTreeSet::new();
+    for m in OP_MODELS {
+        for (n, _) in m.literal_query() {
+            flags.insert(n);
+        }
+        for mem in m.input.iter().filter(|x| x.pos == Pos::Query) {
+            flags.insert(mem.wire);
+        }
+    }
+    let flags: Vec<&'static str> = flags.into_iter().collect();
+    let mut cases: Vec<(usize, usize, &'static str)> = Vec::new(); // (driver, alt, wire name)
+    for (di, d) in ds.iter().enumerate() {
+        let Some(model) = op_model(d.name()) else { continue };
+        for (i, l) in d.input_alt_labels().iter().enumerate() {
+            if !(l.ends_with("=Some(base)") && l.matches('.').count() == 1) {
+                continue;
+            }
+            let field = l.trim_start_matches('.').split('=').next().unwrap_or("");
+            if let Some(m) = model.input.iter().find(|m| m.field == field && m.pos == Pos::Query && matches!(m.shape, "string" | "enum")) {
+                cases.push((di, i, m.wire));
+            }
+        }
+    }
+    let n = cases.len();
+    par_items(acc, &cases, |a, ci, (di, alt, wire)| {
+        let d = ds[*di].as_ref();
+        let Some(base) = sdk::capture(d, &[*alt], Addressing::Path) else { return };
+        // the generated value of a string member is "a" (an enum: its first constant); find it on the wire
+        let Some(pair) = base.req.query().and_then(|q| q.split('&').find(|p| p.split('=').next() == Some(*wire)).map(str::to_owned)) else { return };
+        for f in &flags {
+            for (form, tail) in [("&flag", format!("%26{f}")), ("&flag=1", format!("%26{f}%3D1")), ("?flag", format!("%3F{f}")), ("#flag", format!("%23{f}")), ("+&flag", format!("+%26{f}")), ("%2526flag", format!("%2526{f}"))] {
+                let id = || format!("value/{}/{wire}/{form}/{f}", d.name());
+                if !a.selected(&id) {
+                    continue;
+                }
+                a.eval();
+                a.nontrivial(fnv(id().as_bytes()));
+                let mut req = base.req.clone();
+                req.target = req.target.replacen(&pair, &format!("{pair}{tail}"), 1);
+                let (svc, log) = SvcCfg::default().build();
+                let out = call(&svc, &req, body_one_frame(&base.body));
+                let calls: Vec<&'static str> = backend_calls(&log).iter().map(|c| c.op).collect();
+                if calls == [d.name()] {
+                    a.outcome("value that looks like routing material: dispatched to the denoted operation");
+                } else {
+                    a.outcome("value that looks like routing material: NOT dispatched to the denoted operation");
+                    let fp = if calls.is_empty() { format!("C01/value-changes-dispatch/{}->none", d.name()) } else { format!("C01/value-changes-dispatch/{}->{}", d.name(), calls.join(",")) };
+                    a.fail(&fp, ci, id(), format!("{} with {wire} = 'a' + {form:?} ({}) reached backend methods {calls:?} and was answered {}", d.name(), req.target, out.verdict()), json!({"request": req.describe()}));
+                }
+            }
+        }
+    });
+    n
+}
+
 // ------------------------------------------------------------------ (b)
 
 fn part_b(acc: &mut Acc, tier: Tier) -> usize {
@@ -330,10 +393,11 @@ fn part_b(acc: &mut Acc, tier: Tier) -> usize {
 
 pub fn run(ctx: &Ctx) -> (Acc, Report) {
     let mut acc = ctx.acc();
-    let part = ctx.replay.as_deref().map(|r| if r.starts_with("sdk/") { "a" } else { "b" });
+    let part = ctx.replay.as_deref().map(|r| if r.starts_with("sdk/") { "a" } else if r.starts_with("value/") { "a2" } else { "b" });
     if part.is_none_or(|p| p == "a") {
         part_a(&mut acc, ctx.tier);
     }
+    let n_value_members = if part.is_none_or(|p| p == "a2") { part_a2(&mut acc) } else { 0 };
     let mut n_flags = 0;
     if part.is_none_or(|p| p == "b") {
         n_flags = part_b(&mut acc, ctx.tier);
@@ -341,9 +405,9 @@ pub fn run(ctx: &Ctx) -> (Acc, Report) {
     let max = ctx.tier.pick(2, 3);
     let rep = Report {
         level: "exploration",
-        rule: format!("(a) 96 operations: the request aws-sdk-s3 encodes for base() and for every single deviation of every query- or header-bound member (thorough: also all pairs of 'member present'), under 5 combinations of addressing style x host parser {{path/none, path/single, path/multi(2), virtual-hosted/single, virtual-hosted/multi(2)}}: the recording backend logs exactly that operation. (b) full product of 8 methods x 14 addressed paths (root, bucket, object incl. keys ending in or consisting of slashes, /WriteGetObjectResponse; path-style and virtual-hosted-style under a host parser) x every subset of size <= {max} of {n_flags} query flags/members (every literal query item and query-bound member of the model, plus list-type=1 and select-type=1) x every subset of the 3 discriminating headers; the resolved route is observed at the access hook and compared with the reference router R1 (most-specific match over the Smithy http traits). Distinct by id."),
+        rule: format!("(a) 96 operations: the request aws-sdk-s3 encodes for base() and for every single deviation of every query- or header-bound member (thorough: also all pairs of 'member present'), under 5 combinations of addressing style x host parser {{path/none, path/single, path/multi(2), virtual-hosted/single, virtual-hosted/multi(2)}}: the recording backend logs exactly that operation. (a2) every query-bound string member of every operation x every flag / query member name of the model x 6 spellings of a value that embeds it after an escaped separator (a%26flag, a%26flag%3D1, a%3Fflag, a%23flag, a+%26flag, a%2526flag): same operation, one invocation. (b) full product of 8 methods x 14 addressed paths (root, bucket, object incl. keys ending in or consisting of slashes, /WriteGetObjectResponse; path-style and virtual-hosted-style under a host parser) x every subset of size <= {max} of {n_flags} query flags/members (every literal query item and query-bound member of the model, plus list-type=1 and select-type=1) x every subset of the 3 discriminating headers; the resolved route is observed at the access hook and compared with the reference router R1 (most-specific match over the Smithy http traits). Distinct by id."),
         exhaustive: true,
-        extra: json!({"query_flags": n_flags}),
+        extra: json!({"query_flags": n_flags, "query_bound_string_members_given_routing_like_values": n_value_members}),
         assumptions: vec!["R1 is derived from data/s3.json only; requests for which its most-specific match is not unique are counted and skipped".into(), "CreateSession and ListDirectoryBuckets are deliberately absent from the S3 trait and outside the universe".into()],
     };
     (acc, rep)
